@@ -22931,6 +22931,36 @@ pub mod verif_hooks {
 		})
 	}
 
+	/// `FundedChannel::revoke_and_ack` of a live channel of a real manager with the given state flags, see
+	/// `ln::channel::verif_hooks::revoke_and_ack_probe`. None if the channel does not exist.
+	pub fn revoke_and_ack_probe<
+		M: chain::Watch<SP::EcdsaSigner>,
+		T: BroadcasterInterface,
+		ES: EntropySource,
+		NS: NodeSigner,
+		SP: SignerProvider,
+		F: FeeEstimator,
+		R: Router,
+		MR: MessageRouter,
+		L: Logger,
+	>(
+		cm: &ChannelManager<M, T, ES, NS, SP, F, R, MR, L>, counterparty: &PublicKey,
+		channel_id: &ChannelId, msg: &msgs::RevokeAndACK, awaiting_remote_revoke: bool,
+		monitor_update_in_progress: bool, peer_disconnected: bool,
+	) -> Option<bool> {
+		with_funded_channel(cm, counterparty, channel_id, |chan| {
+			crate::ln::channel::verif_hooks::revoke_and_ack_probe(
+				chan,
+				msg,
+				awaiting_remote_revoke,
+				monitor_update_in_progress,
+				peer_disconnected,
+				&cm.fee_estimator,
+				&cm.logger,
+			)
+		})
+	}
+
 	/// Calls the real (private) `ChannelManager::can_forward_htlc_should_intercept` on an HTLC /
 	/// next-hop pair built from plain integers.
 	pub fn can_forward_probe<
